@@ -289,6 +289,19 @@ let handle (line : string) : string =
                  | None -> "table-full"
                  | Some b -> hexout b))
        | _ -> "?")
+  | "VIDS" :: kd :: vb :: rest ->
+      (* the vocabulary lookups (coq/C04/VocabModel.v):  VIDS S|P <vocab buckets> <spellings handed to Insert, hex> ; <spellings looked up, hex>
+         (a spelling is hex bytes, "-" for the empty one)  ->  "ids <id ...>" | "table-full" | "fuel" *)
+      let spell hx = if hx = "-" then [] else List.init (String.length hx / 2) (fun i -> z_of_hex (String.sub hx (2 * i) 2)) in
+      let rec split acc = function [] -> (List.rev acc, []) | ";" :: r -> (List.rev acc, r) | x :: r -> split (x :: acc) r in
+      let (ws, qs) = split [] rest in
+      let ws = List.map spell ws and qs = List.map spell qs in
+      let out l = if List.exists (fun x -> x = None) l then "fuel"
+                  else "ids " ^ String.concat " " (List.map (function Some z -> hex_of_z z | None -> "?") l) in
+      (match kd with
+       | "S" -> out (sorted_vocab_ids mid_pivot ws qs)
+       | "P" -> (match probing_vocab_ids (nat_of_int (int_of_string vb)) ws qs with None -> "table-full" | Some l -> out l)
+       | _ -> "?")
   | "DUMP" :: kd :: k :: [] ->
       (match (if kd = "P" then !tp else if kd = "R" then !tr else !tt) with
        | LoadError _ -> "not-loaded"
